@@ -57,7 +57,13 @@ def run_case(case):
         import shutil
         import time as _t
         case['_dir'] = C.workdir('C18', 'own%d' % case['i'])
-        shutil.copy(pki + '/right.root.pem', case['_dir'] + '/own-root.pem')
+        if case['withdraw'] == 'relink':
+            # the configured path is a symbolic link; it is pointed at another root later, the file it pointed to stays where it was
+            shutil.copy(pki + '/right.root.pem', case['_dir'] + '/root-2025.pem')
+            shutil.copy(pki + '/wrong.root.pem', case['_dir'] + '/root-2026.pem')
+            os.symlink('root-2025.pem', case['_dir'] + '/own-root.pem')
+        else:
+            shutil.copy(pki + '/right.root.pem', case['_dir'] + '/own-root.pem')
 
     def path_of(src):
         if src == 'right' and case.get('withdraw'):
@@ -94,14 +100,31 @@ def run_case(case):
                 g['env'] = {var: val}
             elif lvl == 'account':
                 accounts = [{'name': 'acc1', 'env': {var: val}}]
-        return S.std_config(d, ca, certs, ca_names=ca_names, endpoint_extra=ep_extra, global_extra=g, accounts=accounts)
-    sources = [case['cli'], case['endpoint'], case['global']]
+        c = S.std_config(d, ca, certs, ca_names=ca_names, endpoint_extra=ep_extra, global_extra=g, accounts=accounts)
+        if case.get('included_globals'):
+            # [global] root_certificates defined again in included files: the last definition replaces the earlier ones
+            inc = []
+            for k, src in enumerate(case['included_globals']):
+                name = 'conf.d/%02d-roots.toml' % k
+                os.makedirs(d + '/conf.d', exist_ok=True)
+                with open(d + '/' + name, 'w') as f:
+                    f.write(C.toml_dumps({'global': ({'root_certificates': [path_of(src)]} if src != 'none' else {'renew_delay': '2d'})}))
+                inc.append(name)
+            out = {'include': inc}
+            out.update(c)
+            return out
+        return c
+    eff_global = case['global']
+    for src in case.get('included_globals') or []:
+        if src != 'none':
+            eff_global = src
+    sources = [case['cli'], case['endpoint'], eff_global]
     broken = [s for s in sources if s in ('missing', 'empty', 'garbage', 'text')]
     chain_ok = case['server'] in ('valid', 'valid-inter', 'other-root', 'unlisted-root')      # right name, currently valid
     need = SERVER_ROOT[case['server']]
     trusted1 = chain_ok and need in sources and not broken
     # second endpoint: no endpoint-level roots of its own; it sees the command line and global sources only
-    src2 = [case['cli'], case['global']]
+    src2 = [case['cli'], eff_global]
     trusted2 = chain_ok and need in src2 and not [s for s in src2 if s in ('missing', 'empty', 'garbage', 'text')]
     n_certs = 2 if case.get('second_endpoint') else 1
     plan = {'default': {'lifetimes_s': [LONG] if not case.get('withdraw') else [100] * 30, 'chain_lens': [1]}}
@@ -116,6 +139,9 @@ def run_case(case):
                     tmp = f + '.new'
                     if case['withdraw'] == 'removed':
                         os.remove(f)
+                    elif case['withdraw'] == 'relink':
+                        os.symlink('root-2026.pem', tmp)
+                        os.replace(tmp, f)
                     else:
                         src = {'garbage': pki + '/garbage.pem', 'empty': pki + '/empty.pem', 'wrong-root': pki + '/wrong.root.pem'}[case['withdraw']]
                         shutil.copy(src, tmp)
@@ -223,6 +249,12 @@ def gen(tier, r, pki):
         cases = keep[:140]
         r.shuffle(broken)
         broken = broken[:24]
+    # the global list defined in the main file and again in included files
+    incl = []
+    for main, inc in (('right', ['wrong']), ('wrong', ['right']), ('right', ['none', 'wrong']), ('none', ['right', 'wrong']), ('none', ['wrong', 'right']),
+                      ('right', ['wrong', 'none']), ('wrong', ['none'])):
+        for by_name in (True, False):
+            incl.append({'server': 'valid', 'by_name': by_name, 'cli': 'none', 'endpoint': 'none', 'global': main, 'included_globals': inc})
     # a CA bundle named in the hooks' environment tables is not a source of trust
     henv = []
     have_dir = os.path.isdir(pki + '/third.certdir')
@@ -234,12 +266,12 @@ def gen(tier, r, pki):
     henv.append({'server': 'valid', 'by_name': True, 'cli': 'none', 'endpoint': 'right', 'global': 'none', 'hook_env': ('global', 'SSL_CERT_FILE')})
     # a root file that was good when the daemon started and is withdrawn, damaged or replaced while it runs
     wd = []
-    for kind in ('removed', 'garbage', 'empty', 'wrong-root'):
+    for kind in ('removed', 'garbage', 'empty', 'wrong-root', 'relink'):
         for where in ('cli', 'endpoint', 'global'):
             c = {'server': 'valid', 'by_name': True, 'cli': 'none', 'endpoint': 'none', 'global': 'none', 'withdraw': kind}
             c[where] = 'right'
             wd.append(c)
-    cases = cases + broken + leak + henv + wd
+    cases = cases + broken + leak + henv + wd + incl
     for i, c in enumerate(cases):
         c['i'] = i
         c['pki'] = pki
@@ -264,6 +296,8 @@ def run(tier):
             chk.inconclusive.append(res['infra'])
         if c.get('hook_env'):
             chk.count('cases_ca_bundle_named_in_hook_environment')
+        if c.get('included_globals'):
+            chk.count('cases_global_roots_redefined_in_included_files')
         if res.get('after_withdrawal'):
             chk.count('cases_root_file_withdrawn_while_running')
             chk.count('attempts_after_withdrawal', res['after_withdrawal']['attempts'])
@@ -273,7 +307,7 @@ def run(tier):
         exp = res['expected']['ca1']
         chk.count('cases_expected_trusted' if exp else 'cases_expected_untrusted')
         if tot or res['handshake_failures']:
-            chk.distinct.add((c['server'], c['by_name'], c['cli'], c['endpoint'], c['global'], bool(c.get('second_endpoint')), str(c.get('hook_env')), c.get('withdraw')))
+            chk.distinct.add((c['server'], c['by_name'], c['cli'], c['endpoint'], c['global'], bool(c.get('second_endpoint')), str(c.get('hook_env')), c.get('withdraw'), str(c.get('included_globals'))))
         if not res['problems']:
             chk.sample({k: v for k, v in c.items() if k not in ('pki', 'i')} | {'requests': res['requests'], 'refused_handshakes': res['handshake_failures']})
         seen = set()
@@ -281,12 +315,12 @@ def run(tier):
             if cls in seen:
                 continue
             seen.add(cls)
-            srcs = '+'.join(s for s in (c['cli'], c['endpoint'], c['global']))
+            srcs = '+'.join(s for s in (c['cli'], c['endpoint'], c['global'])) + ('|included=' + '>'.join(c['included_globals']) if c.get('included_globals') else '')
             chk.violation('C18|%s|%s|%s%s' % (cls, c['server'], srcs, ('|hook-env=%s/%s' % tuple(c['hook_env'])) if c.get('hook_env') else ''), what, {k: v for k, v in res.items() if k != 'replay_dir'}, res.get('replay_dir'))
     chk.exhaustive = (tier == 'thorough')
     chk.rule = ('(server chain: valid, valid through an intermediate, unlisted root, other host name, expired, not yet valid) x (URL by name / by IP) x '
                 '(--root-cert, endpoint root_certificates, global root_certificates each carrying nothing / the right root / a wrong root)%s, plus missing / empty / '
-                'malformed root files at each source, two endpoints of which only one lists the root, CA bundles named in the hooks\' environment tables (SSL_CERT_FILE / SSL_CERT_DIR at global, certificate and account level), root files withdrawn / damaged / replaced while the daemon runs; distinct = combinations for which the TLS mock CA saw a '
+                'malformed root files at each source, two endpoints of which only one lists the root, CA bundles named in the hooks\' environment tables (SSL_CERT_FILE / SSL_CERT_DIR at global, certificate and account level), root files withdrawn / damaged / replaced / re-linked while the daemon runs, the global list redefined in included files; distinct = combinations for which the TLS mock CA saw a '
                 'handshake attempt or a request' % ('' if tier == 'thorough' else ' (stratified sample)'))
     chk.assumptions = ['the system trust store does not contain the generated roots', 'a request logged by the TLS mock CA implies a completed handshake']
     code = chk.finish()
